@@ -75,9 +75,19 @@ def main(args):
 
         if args.dry_run:
             for exp_path in to_delete:
-                print("Would delete", str(exp_path.relative_to(cwd)))
+                print("Would delete", str(_relative_to_if_possible(exp_path, cwd)))
         else:
             for exp_path in to_delete:
                 if args.verbose:
-                    print("Deleting", str(exp_path.relative_to(cwd)))
+                    print("Deleting", str(_relative_to_if_possible(exp_path, cwd)))
                 shutil.rmtree(exp_path, ignore_errors=True)
+
+
+def _relative_to_if_possible(path: pathlib.Path, base: pathlib.Path) -> pathlib.Path:
+    # Compute a relative path to `base` (the current working directory), if
+    # possible. Conductor may be running from a directory that is not a parent
+    # of `path` (e.g., a different subdirectory of the project).
+    try:
+        return path.relative_to(base)
+    except ValueError:
+        return path
